@@ -471,7 +471,7 @@ fn next_choices(adv: &[u16]) -> Vec<u16> {
 pub fn run(ctx: &Arc<Ctx>) {
     refmodels::selftest::run(&["sm3", "sm2"]).unwrap_or_else(|e| ctx.machinery_error(format!("reference self-test failed: {}", e)));
     let n = sm2::params().n.clone();
-    ctx.set_rule("stateright BFS over all man-in-the-middle choice sequences on the real Exchange objects: R_A->B, R_B->A in {pass, re-randomised Jacobian representation, affine as decoded from the wire, -R, 2R, G, off-curve, point at infinity}, S_B->A, S_A->B in {pass, first bit flipped, last bit flipped, all-zero, first byte xor ff, the value computed with the pre-standard two-byte tag, the other party's confirmation value}, R_A handed to exchange_4 in the 6 point choices; every subset of the messages altered x every kind, per configuration (key pairs {Annex, (1,n-2), (n-2,2), seeded} x IDs x klen). Honest paths additionally for every klen 1..=200 (thorough 600), klen in {8160, 8191, 8192, 8193, 8225, 65537} and the nonce product r_A x r_B; every single-bit flip of S_B and of S_A on otherwise honest runs; keys crafted so that the peer's P + [x-bar]R' is the point at infinity for an adversary-chosen R' (the shared point is O: both roles must report failure, also against an S_B forged for a zero point). Invariant: honest deliveries (incl. re-randomised) give both sides the reference K (w=127), S_B, S_A (one-byte tags) and exchange_4 = true; any altered message makes the receiving step fail; off-curve points are refused by the step that receives them; a panic is a violation. ephemeral scalars fixed through the RNG seam. Honest runs with a static key equal to x-bar(R)*r (the peer's P + [x-bar]R is a doubling). Sessions: every sequence of <= 3 (thorough 4) runs over {honest, honest with roles swapped, abandoned after exchange_2, S_B altered, off-curve R_A} on one pair of Exchange objects - every honest run must yield the standard's values for its own ephemeral scalars.");
+    ctx.set_rule("stateright BFS over all man-in-the-middle choice sequences on the real Exchange objects: R_A->B, R_B->A in {pass, re-randomised Jacobian representation, affine as decoded from the wire, -R, 2R, G, off-curve, point at infinity}, S_B->A, S_A->B in {pass, first bit flipped, last bit flipped, all-zero, first byte xor ff, the value computed with the pre-standard two-byte tag, the other party's confirmation value}, R_A handed to exchange_4 in the 6 point choices; every subset of the messages altered x every kind, per configuration (key pairs {Annex, (1,n-2), (n-2,2), seeded} x IDs x klen). Honest paths additionally for every klen 1..=200 (thorough 600), ephemeral scalars searched so that a 1-byte key is 00 / a 2-byte key ends in 00, klen in {8160, 8191, 8192, 8193, 8225, 65537} and the nonce product r_A x r_B; every single-bit flip of S_B and of S_A on otherwise honest runs; keys crafted so that the peer's P + [x-bar]R' is the point at infinity for an adversary-chosen R' (the shared point is O: both roles must report failure, also against an S_B forged for a zero point). Invariant: honest deliveries (incl. re-randomised) give both sides the reference K (w=127), S_B, S_A (one-byte tags) and exchange_4 = true; any altered message makes the receiving step fail; off-curve points are refused by the step that receives them; a panic is a violation. ephemeral scalars fixed through the RNG seam. Honest runs with a static key equal to x-bar(R)*r (the peer's P + [x-bar]R is a doubling). Sessions: every sequence of <= 3 (thorough 4) runs over {honest, honest with roles swapped, abandoned after exchange_2, S_B altered, off-curve R_A} on one pair of Exchange objects - every honest run must yield the standard's values for its own ephemeral scalars.");
     let mut g = SplitMix::new(ctx.seed, "c15");
     let annex = ("81EB26E941BB5AF16DF116495F90695272AE2CD63D6C4AE1678418BE48230029", "785129917D45A9EA5437A59356B82338EAADDA6CEB199088F14AE10DEFA229B5", "D4DE15474DB74D06491C440D305E012400990F3E390C7E87153C12DB2EA60BB3", "7E07124814B309489125EAED101113164EBF0F3458C5BD88335C1F9D596243D6");
     let seeded: Vec<BigUint> = (0..4).map(|_| g.nonzero_below(&(&n - 2u32))).collect();
@@ -509,6 +509,32 @@ pub fn run(ctx: &Arc<Ctx>) {
     for klen in 1..=ctx.tier.pick(200usize, 600) {
         let (da, db, ra, rb, ida, idb) = &keypairs[klen % keypairs.len()];
         cases.push(Case { cfg: Config { da: da.clone(), db: db.clone(), ida: ida.clone(), idb: idb.clone(), klen, ra: ra.clone(), rb: rb.clone(), cancel_a: None, cancel_b: None }, adv: vec![(klen % 2) as u16, ((klen / 2) % 2) as u16, 0, 0, ((klen / 4) % 2) as u16], tag: format!("honest/klen%32={}", if klen % 32 == 0 { "0" } else { "!0" }) });
+    }
+    // short keys that come out all zero: klen = 1 with r_B searched (by the reference, r_B = 1, 2, ...) so that K = 00, and
+    // klen = 2 with K[1] = 00. GB/T 32918.3 has no "key must not be zero" rule (that is SM2 encryption's): the run must succeed
+    {
+        use rayon::prelude::*;
+        let (da, db, ra, _, ida, idb) = &keypairs[0];
+        let (dab, dbb, rab) = (hb(da), hb(db), hb(ra));
+        let (pa, pb) = (sm2::g_mul(&dab), sm2::g_mul(&dbb));
+        let idab = ida.as_ref().map(|s| s.as_bytes().to_vec()).unwrap_or_else(|| sm2::DEFAULT_ID.to_vec());
+        let idbb = idb.as_ref().map(|s| s.as_bytes().to_vec()).unwrap_or_else(|| sm2::DEFAULT_ID.to_vec());
+        let (za, zb) = (sm2::za(&idab, &pa), sm2::za(&idbb, &pb));
+        let ra_pt = sm2::g_mul(&rab);
+        let hits: Vec<(u32, Vec<u8>)> = (1u32..=1536).into_par_iter().filter_map(|j| sm2::kex_party(false, &dbb, &BigUint::from(j), &zb, &pa, &ra_pt, &za, 2).map(|r| (j, r.k))).filter(|(_, k)| k[0] == 0 || k[1] == 0).collect();
+        let mut n1 = 0;
+        let mut n2 = 0;
+        for (j, k) in &hits {
+            let (klen, cnt) = if k[0] == 0 { (1usize, &mut n1) } else { (2usize, &mut n2) };
+            if *cnt < 2 {
+                *cnt += 1;
+                cases.push(Case { cfg: Config { da: da.clone(), db: db.clone(), ida: ida.clone(), idb: idb.clone(), klen, ra: ra.clone(), rb: hexbig(&BigUint::from(*j)), cancel_a: None, cancel_b: None }, adv: vec![0, 0, 0, 0, 0], tag: "honest/key-with-a-zero-tail-block".into() });
+            }
+        }
+        ctx.cov("searched_ephemerals_giving_zero_key_bytes", json!({"klen1_all_zero": n1, "klen2_last_byte_zero": n2}));
+        if n1 == 0 {
+            ctx.machinery_error("no ephemeral scalar giving an all-zero 1-byte key found");
+        }
     }
     // key lengths around the first carry of the KDF block counter into its second byte (256 blocks of 32 bytes)
     for klen in [8160usize, 8191, 8192, 8193, 8225, 65537] {
